@@ -22,6 +22,7 @@ import numpy as np
 from EasyFEA import AlgoType, Models, Simulations
 from EasyFEA.FEM import MatrixType
 
+from . import _suite
 from ..core import Ctx, quiet, relerr
 from ..gen import meshes as gm
 from . import _beam_common as bcm
@@ -93,6 +94,9 @@ def cases(tier: str, seed: int) -> list[dict]:
     for i, c in enumerate(out):
         c["id"] = f"C16-{i:05d}-{c['kind']}-{c['dim']}D-{c['et']}-{c['mesh']}-{c['state']}"
         c["index"] = i
+    for c in _suite.suite_cases(PROP, tier):
+        c["index"] = len(out)
+        out.append(c)
     return out
 
 
@@ -315,6 +319,8 @@ def unmandel(f):
 
 
 def run_case(case: dict, ctx: Ctx) -> None:
+    if case.get("fam") == "suite":
+        return _suite.run_suite(case, ctx, PROP)
     rng = np.random.default_rng([case["seed"], NUM, case["index"]])
     kind, dim, et = case["kind"], case["dim"], case["et"]
     key0 = f"C16/{kind}"
